@@ -894,6 +894,7 @@ def expand_temps (fn, known_locals):
         if isinstance(x, ast.Name) and isinstance(x.ctx, ast.Store): banned.add(x.id)
         if isinstance(x, ast.arg): banned.add(x.arg)
   total = 0
+  fn_locals_ = local_names(fn)
   for nm, idxs in sorted(defs.items(), key=lambda kv: -kv[1][0]):
     if nm in known_locals or nm in params or nm in banned or len(idxs) != 1: continue
     di = idxs[0]; ds, dloops = lin[di]
@@ -968,6 +969,13 @@ def expand_temps (fn, known_locals):
                 rcv = _base_text(c_.func.value)
                 if rcv.split('.')[0] == root and rcv != etxt and not rcv.startswith(etxt + '.') and not _impure_call_in([c_]) is False:
                   if _impure_call_in([c_]): ok = False
+              if isinstance(c_, ast.Call) and _impure_call_in([c_]):
+                # the owner of the attribute handed to an unknown call, or a call through a local variable (possibly a bound
+                # method of the owner): either may re-bind the attribute
+                for a2 in list(c_.args) + [k_.value for k_ in c_.keywords]:
+                  b2 = a2.value if isinstance(a2, ast.Starred) else a2
+                  if isinstance(b2, (ast.Name, ast.Attribute)) and _base_text(b2).split('.')[0] == root and not (_base_text(b2) == etxt or _base_text(b2).startswith(etxt + '.')): ok = False
+                if isinstance(c_.func, ast.Name) and c_.func.id in fn_locals_: ok = False
           if not ok: break
         if not ok: continue
       elif flow is not None:
